@@ -154,15 +154,15 @@ def axiom_audit(modules, theorems):
     return res, text
 
 
-def driver_run(lines):
-    """Pipe operation lines to the Lean driver; returns list of output lines."""
+def driver_run(pid, lines):
+    """Pipe operation lines to the property's Lean driver; returns list of output lines."""
     os.makedirs(WORK, exist_ok=True)
-    exe = os.path.join(LEAN, ".lake", "build", "bin", "driver")
+    exe = os.path.join(LEAN, ".lake", "build", "bin", f"driver_{pid}")
     data = "".join(l + "\n" for l in lines)
     if os.path.exists(exe):
         rc, out, err = run([exe], input=data, timeout=3000)
     else:
-        rc, out, err = run(["lake", "env", "lean", "--run", "Driver/Main.lean"], cwd=LEAN,
+        rc, out, err = run(["lake", "env", "lean", "--run", f"Driver/Main{pid}.lean"], cwd=LEAN,
                            input=data, timeout=3000)
     if rc != 0:
         raise Infra(f"driver failed rc={rc}: {err[:500]}")
@@ -298,11 +298,11 @@ def check(pid, tier, seed, replay=None):
         return 0
 
     # 1. regenerate tables ------------------------------------------------------------
-    try:
-        gen = gen_tables.generate(REPO)
-        notes.append(f"tables: {gen}")
-    except gen_tables.TranslatorError as e:
-        broken.append(("translator", "gen_tables", str(e)))
+    gen, gen_errs = gen_tables.generate(REPO)
+    notes.append(f"tables: {gen}")
+    for name, err in gen_errs.items():
+        if name in getattr(prop, "GENERATED", []) or name == "*":
+            broken.append(("translator", name, err))
 
     # fingerprints → escalation
     fp_now = fingerprint(getattr(prop, "FINGERPRINT", []))
@@ -317,10 +317,10 @@ def check(pid, tier, seed, replay=None):
     theorems = list(prop.THEOREMS)
     discharged = {}
     model_ok = True
-    ok, text = lake_build(["CanopenModel", "driver"])
+    ok, text = lake_build([f"driver_{pid}"])
     if not ok:
         model_ok = False
-        broken.append(("model-build", "CanopenModel", tail(text)))
+        broken.append(("model-build", f"driver_{pid}", tail(text)))
     ok, text = lake_build(list(prop.PROOF_MODULES))
     proofs_ok = ok
     if not ok:
@@ -364,7 +364,7 @@ def check(pid, tier, seed, replay=None):
     model_outs = [None] * len(ops)
     if model_ok:
         try:
-            model_outs = driver_run([f"{pid} {o}" for o in ops])
+            model_outs = driver_run(pid, [f"{pid} {o}" for o in ops])
             if hasattr(prop, "canon_model"):
                 model_outs = [prop.canon_model(o, m) for o, m in zip(ops, model_outs)]
         except Infra as e:
@@ -514,7 +514,7 @@ def main():
     a = ap.parse_args()
     try:
         if a.setup:
-            gen_tables.generate(REPO)
+            print(gen_tables.generate(REPO))
             ok, text = lake_build([])
             print(tail(text, 40))
             return 0 if ok else 2
